@@ -7,6 +7,8 @@ Driver operations of family `hostile` (C12): what the model answers for an untru
   (hostile.rep.cavs x<prefix> x<unit> <n> x<suffix> <tag>) →  <ok|err> nopanic alloc:fine child:ok
   (hostile.rep.mac  …)                                          on the input prefix ++ unit^n ++ suffix
 
+  (hostile.depth x<msgpack> <tag>)                         →  depth:<nesting of the decoded tree>   (fidelity: checks the harness's scanner)
+
 `ok|err` is computed (the decoders of `Caveat/Codec.lean` with the nesting budget `defaultFuel`).
 The rest of the line is constant, and that is the point: the model's functions are total, so there
 is no operation whose result could be "panic"; its decoded value is never larger than the input
@@ -34,16 +36,36 @@ def decodeCavsTop (fuel : Nat) (bs : Bytes) : Option (List (Cav Bytes)) :=
   | some (.nil, _) => some []
   | _ => decodeCavs fuel bs
 
+mutual
+/-- nesting of arrays and maps of a decoded tree (the driver's own copy of `Lemmas/Msgpack.lean: depth`) -/
+def vDepth : Msgpack.V → Nat
+  | .arr _ xs => 1 + vDepthL xs
+  | .map _ kvs => 1 + vDepthL kvs
+  | _ => 0
+def vDepthL : Msgpack.VL → Nat
+  | .nil => 0
+  | .cons v vs => max (vDepth v) (vDepthL vs)
+end
+
 /-- prefix ++ unit^n ++ suffix -/
 def repBytes (p u : Bytes) (n : Nat) (s : Bytes) : Bytes :=
   p ++ (List.replicate n u).flatten ++ s
 
+/-- the harness tags inputs in which an ext header directly precedes a map header (`.extmap`): the library
+reads those as maps where a map is expected (vmihailenco `DecodeMapLen`), which is outside the modelled wire
+domain, so no accept/refuse verdict is given for them -/
+def tagExtMap : Sx → Bool
+  | .atom t => (t.splitOn ".extmap").length > 1
+  | _ => false
+
 def evalOpHostile : Sx → Option String
-  | .list [.atom "hostile.cavs", b, _] => do
+  | .list [.atom "hostile.cavs", b, tag] => do
     let b ← b.bytes?
+    if tagExtMap tag then some ("?" ++ hostileTail) else
     some (okErr (decodeCavsTop defaultFuel b) ++ hostileTail)
-  | .list [.atom "hostile.mac", b, _] => do
+  | .list [.atom "hostile.mac", b, tag] => do
     let b ← b.bytes?
+    if tagExtMap tag then some ("?" ++ hostileTail) else
     some (okErr (decodeMac defaultFuel b) ++ hostileTail)
   | .list [.atom "hostile.json", b, _] => do
     let _ ← b.bytes?
@@ -51,6 +73,13 @@ def evalOpHostile : Sx → Option String
   | .list [.atom "hostile.hdr", b, _] => do
     let _ ← b.bytes?
     some ("?" ++ hostileTail)
+  | .list [.atom "hostile.depth", b, _] => do
+    -- cross-check of the harness's iterative scanner (which tags inputs `.over200`): the nesting of the
+    -- tree `dec` returns under an ample budget
+    let b ← b.bytes?
+    match Msgpack.dec 100000 b with
+    | some (v, _) => some s!"depth:{vDepth v}"
+    | none => some "depth:undecodable"
   | .list [.atom "hostile.rep.cavs", p, u, n, s, _] => do
     let b := repBytes (← p.bytes?) (← u.bytes?) (← n.nat?) (← s.bytes?)
     some (okErr (decodeCavsTop defaultFuel b) ++ hostileTail ++ " child:ok")
